@@ -68,12 +68,12 @@ CLAIMED = {
    "Lean kernel (decide +kernel: GMP arithmetic); translator (regex + re-implemented ucd-trie lookup) validated exhaustively against TrieSet::contains_char; name lists extracted textually.",
    "regenerated tables + Lean 4 kernel evaluation over the whole finite domain + exhaustive code-point correspondence"),
  "C14": ("translation_validation",
-   "The bootstrap is validated as a translation: (1) the current generator applied to the current grammar.pest must reproduce meta/src/grammar.rs byte for byte (equal programs need no behavioural argument); (2) the grammar is REGENERATED into a Lean value on every run and the kernel checks that the Lean optimizer model reproduces the real optimizer on it and that the lister does not touch it (so C05's pipeline theorem applies); (3) on snippets of real grammars and their mutations, for the top rule and 19 sub-rules, the checked-in parser, the VM over parse_and_optimize(grammar.pest), a freshly generated parser and the reference denotation of the regenerated grammar agree on acceptance, token tree and (among the implementations) error position and rule sets.",
+   "The bootstrap is validated as a translation: (1) the current generator applied to the current grammar.pest must reproduce meta/src/grammar.rs byte for byte (equal programs need no behavioural argument); (2) the grammar is REGENERATED into a Lean value on every run and the kernel checks that the Lean optimizer model reproduces the real optimizer on it and that the lister does not touch it (so C05's pipeline theorem applies); (3) on snippets of real grammars and their mutations, for the top rule and 19 sub-rules, the checked-in parser, the VM over parse_and_optimize(grammar.pest), a freshly generated parser and the reference denotation of the regenerated grammar agree on acceptance, token tree and (among the implementations) error position and rule sets; (4) capstone (PestModel.Thm.Capstone, re-checked on the regenerated values every run): meta_accepted (grammar.pest with the real optimizer's output satisfies every hypothesis of the end-to-end theorems) and meta_vm_conforms / meta_generated_agrees: for every rule of grammar.pest and every text the VM model terminates with exactly the result the documented semantics assign to grammar.pest as written, and the generated-parser model reports the same.",
    "DESIGN.md §6 C14",
    "textual equality of generated code; Lean kernel for the optimizer equality; differential on mutated real grammars.",
    "regeneration equality + kernel-checked optimizer equality on the regenerated grammar + four-way differential"),
  "C18": ("proof",
-   "RFC 8259's ABNF is transcribed into an executable Lean recogniser that also builds the document tree (PestModel.Json.jsonText, written without looking at json.pest); json.pest is REGENERATED into a Lean value on every run and the kernel checks, for ALL strings of every length and nesting depth: json_sound (whatever the grammar accepts from rule json is an RFC 8259 text and the pairs are exactly the RFC document tree with its byte spans), json_complete (every RFC text is accepted with that tree), json_rejects (rejection is definite), via json_iff and the layer theorems ws_iff / number_iff / string_iff / value_iff. The real JsonParser is tied to both by an EXHAUSTIVE differential on all strings up to a length bound over a JSON-heavy alphabet, near-misses and generated documents (acceptance and full token tree), with a second independent RFC recogniser in Rust as oracle.",
+   "RFC 8259's ABNF is transcribed into an executable Lean recogniser that also builds the document tree (PestModel.Json.jsonText, written without looking at json.pest); json.pest is REGENERATED into a Lean value on every run and the kernel checks, for ALL strings of every length and nesting depth: json_sound (whatever the grammar accepts from rule json is an RFC 8259 text and the pairs are exactly the RFC document tree with its byte spans), json_complete (every RFC text is accepted with that tree), json_rejects (rejection is definite), via json_iff and the layer theorems ws_iff / number_iff / string_iff / value_iff. Capstone (PestModel.Thm.Capstone): json_accepted, json_vm_conforms and json_generated_conforms — the VM model and the generated-parser model run on the real optimizer's output of json.pest accept exactly the RFC 8259 texts, with exactly the RFC document tree as token queue, and never panic. The real JsonParser is tied to both by an EXHAUSTIVE differential on all strings up to a length bound over a JSON-heavy alphabet, near-misses and generated documents (acceptance and full token tree), with a second independent RFC recogniser in Rust as oracle.",
    "DESIGN.md §6 C18",
    "Lean kernel; axioms propext/Classical.choice/Quot.sound only; grammar regenerated by translator tr_grammar; reference denotation (C01) as the meaning of the grammar; JsonParser tied by differential (C02's generated-code tie is separate).",
    "Lean 4 proof that the reference denotation of the regenerated json.pest equals the RFC 8259 transcription + exhaustive-to-length differential against JsonParser"),
@@ -88,7 +88,7 @@ CLAIMED = {
    "sampling in child processes; partial by nature (DESIGN §6 C09); repetition counts bounded as the property states.",
    "child-process totality sampling on mutated grammars + Lean 4 lemmas on modelled panic sites"),
  "C07": ("other",
-   "Round trip on the implementation: random abstract rule sets are written in pest syntax with a random LEGAL spelling (only the parentheses precedence requires, arbitrary spacing, block/line/doc comments, leading |, per-character escape forms, leading-zero counts) and must read back as the same rules (oracle: the abstract grammar), in two builds (default, grammar-extras). Lean side: a model of unescape, the number parsers and the operator-precedence stage (C13's Pratt parser with the reader's table), with kernel-checked theorems unescape_spell, unescape_unicode_none, count_roundtrip, index_roundtrip, pratt_rebuilds, tied by a correspondence on thousands of literal bodies through the real reader vs the Lean reader (reference denotation of the REGENERATED meta-grammar + unescape model). read_print for arbitrary spacing is only sampled: partial.",
+   "Round trip on the implementation: random abstract rule sets are written in pest syntax with a random LEGAL spelling (only the parentheses precedence requires, arbitrary spacing, block/line/doc comments, leading |, per-character escape forms, leading-zero counts) and must read back as the same rules (oracle: the abstract grammar), in two builds (default, grammar-extras). Lean side: a model of unescape, the number parsers and the operator-precedence stage (C13's Pratt parser with the reader's table), with kernel-checked theorems unescape_spell, unescape_unicode_none, count_roundtrip, index_roundtrip, pratt_rebuilds, and a Lean model of the WHOLE reader (PestModel.Reader.readGrammar: reference denotation of the REGENERATED meta-grammar, then consume_rules_with_spans / consume_expr / unaries / the Pratt stage / convert_rule / validate_ast as ReaderFull.consumeRules) with theorems consumeRules_iff, consumeExpr_fold / fold_groups (the infix stage is the left-to-right fold with ~ binding tighter), consumeExpr_lead, unaries_tag / _pos / _neg / _paren / _push, postfixes_cons and fuel monotonicity. Ties: every printed grammar text of the run goes through the whole-reader correspondence (R / RX lines: the AST the real parse + consume_rules return vs the Lean reader, both builds; 2500 texts per build in the quick tier) and thousands of literal bodies through the literal correspondence (Q lines, with an oracle for bodies of position-independent meaning). read_print for arbitrary spacing is sampled, not proved: level other.",
    "DESIGN.md §6 C07",
    "round trip sampling with the abstract grammar as oracle; Lean kernel for the proved parts; regenerated meta-grammar.",
    "print/read round trip with random spellings + Lean 4 theorems on unescape / numbers / precedence stage"),
